@@ -16,8 +16,12 @@ theorem tryProperty_inv {e : Expr} {p : Ident} (h : tryProperty e = some p) :
     | _ => simp [tryProperty] at h
   | _ => simp [tryProperty] at h
 
-theorem eval_selfProp (env : Env) (p : Ident) : eval env (.member (.name idSelf) p) = env.props p := by
+theorem eval_self (env : Env) : eval env (.name idSelf) = some env.selfVal := by
   simp [eval]
+
+theorem eval_selfProp (env : Env) (hs : env.selfVal = .inst) (p : Ident) :
+    eval env (.member (.name idSelf) p) = env.props p := by
+  simp [eval, hs]
 
 theorem matchIntConst_inv {e : Expr} {c : Int} (h : matchIntConst e = some c) : e = .const c := by
   cases e <;> simp [matchIntConst] at h
@@ -113,10 +117,10 @@ theorem ofComparison_sound {op : Op} {side : Bool} {c : Int} {b : Bound}
     subst h <;> simp [Bound.holds, cmpInt] <;> omega
 
 /-- `len(self.p)` evaluates to the length of the data held by the property, or fails. -/
-theorem eval_len_selfProp (env : Env) (p : Ident) (v : Val)
+theorem eval_len_selfProp (env : Env) (hs : env.selfVal = .inst) (p : Ident) (v : Val)
     (h : eval env (.call idLen [.member (.name idSelf) p]) = some v) :
     ∃ t, env.props p = some (.data t) ∧ v = .int t.length := by
-  simp only [eval, evalArgs] at h
+  simp only [eval, evalArgs, hs] at h
   cases hp : env.props p with
   | none => simp [hp] at h
   | some w =>
@@ -138,7 +142,7 @@ theorem eval_const (env : Env) (c : Int) : eval env (.const c) = some (.int c) :
   rw [eval]
 
 /-- L1: a recognised length comparison on `self.p` that evaluates to `True` bounds the length of `p`. -/
-theorem matchLenOnProp_sound (env : Env) {e : Expr} {p : Ident} {b : Bound}
+theorem matchLenOnProp_sound (env : Env) (hs : env.selfVal = .inst) {e : Expr} {p : Ident} {b : Bound}
     (h : matchLenOnProp e = .ok (some (p, b))) (he : eval env e = some (.bool true)) :
     ∃ t, env.props p = some (.data t) ∧ b.holds t.length := by
   unfold matchLenOnProp at h
@@ -156,14 +160,14 @@ theorem matchLenOnProp_sound (env : Env) {e : Expr} {p : Ident} {b : Bound}
         obtain ⟨a, b2, hl, hr, hc⟩ := eval_cmp_true he
         rw [eval_const] at hr
         cases hr
-        obtain ⟨t, hp, hv⟩ := eval_len_selfProp env q _ hl
+        obtain ⟨t, hp, hv⟩ := eval_len_selfProp env hs q _ hl
         cases hv
         exact ⟨t, hp, (ofComparison_sound ho t.length).mpr (by simpa using hc)⟩
       · subst he'
         obtain ⟨a, b2, hl, hr, hc⟩ := eval_cmp_true he
         rw [eval_const] at hl
         cases hl
-        obtain ⟨t, hp, hv⟩ := eval_len_selfProp env q _ hr
+        obtain ⟨t, hp, hv⟩ := eval_len_selfProp env hs q _ hr
         cases hv
         exact ⟨t, hp, (ofComparison_sound ho t.length).mpr (by simpa using hc)⟩
     · cases h
@@ -204,7 +208,7 @@ theorem matchPat_sound (env : Env) {pats : List (Ident × Nat)} (hok : env.OK pa
   obtain ⟨f, hf, hk⟩ := matchPat_inv h
   subst hf
   rw [eval] at he
-  simp only [evalArgs, eval_selfProp] at he
+  simp only [evalArgs, eval_selfProp env hok.selfInst] at he
   cases hp : env.props p with
   | none => rw [hp] at he; simp at he
   | some v =>
@@ -256,13 +260,13 @@ theorem eval_isIn_true {env : Env} {m : Expr} {x : Ident} (h : eval env (.isIn m
     | _ => simp at h
 
 /-- L3: a recognised membership `self.p in X` that evaluates to `True`. -/
-theorem matchIn_sound (env : Env) {e : Expr} {p x : Ident}
+theorem matchIn_sound (env : Env) (hs : env.selfVal = .inst) {e : Expr} {p x : Ident}
     (h : matchIn e = some (p, x)) (he : eval env e = some (.bool true)) :
     ∃ t, env.props p = some (.data t) ∧ ∃ ms, env.sets x = some ms ∧ t ∈ ms := by
   rw [matchIn_inv h] at he
-  obtain ⟨t, ms, hm, hs, ht⟩ := eval_isIn_true he
-  rw [eval_selfProp] at hm
-  exact ⟨t, hm, ms, hs, ht⟩
+  obtain ⟨t, ms, hm, hset, ht⟩ := eval_isIn_true he
+  rw [eval_selfProp env hs] at hm
+  exact ⟨t, hm, ms, hset, ht⟩
 
 /-- L4: a conjunction that evaluates to `True` has only `True` operands. -/
 theorem evalAnd_true {env : Env} {es : List Expr} (h : evalAnd env es = some (.bool true)) :
@@ -329,7 +333,7 @@ theorem eval_isNotNone_none {env : Env} {e : Expr} (h : eval env e = none) : eva
   rw [eval, h]
 
 /-- L5: a guarded invariant that evaluates to `True`: the guarding property is `None`, or the consequent is `True`. -/
-theorem tryConditional_sound (env : Env) {e cons : Expr} {g : Ident}
+theorem tryConditional_sound (env : Env) (hs : env.selfVal = .inst) {e cons : Expr} {g : Ident}
     (h : tryConditional e = some (g, cons)) (he : eval env e = some (.bool true)) :
     env.props g = some .none ∨ eval env cons = some (.bool true) := by
   rcases tryConditional_inv h with h' | h'
@@ -337,10 +341,10 @@ theorem tryConditional_sound (env : Env) {e cons : Expr} {g : Ident}
     rw [eval] at he
     cases hp : env.props g with
     | none =>
-      rw [eval_isNotNone_none (by rw [eval_selfProp]; exact hp)] at he
+      rw [eval_isNotNone_none (by rw [eval_selfProp env hs]; exact hp)] at he
       simp at he
     | some v =>
-      rw [eval_isNotNone_of (by rw [eval_selfProp]; exact hp)] at he
+      rw [eval_isNotNone_of (by rw [eval_selfProp env hs]; exact hp)] at he
       by_cases hv : v = .none
       · left; rw [hv]
       · right
@@ -350,10 +354,10 @@ theorem tryConditional_sound (env : Env) {e cons : Expr} {g : Ident}
     rw [eval, evalOr] at he
     cases hp : env.props g with
     | none =>
-      rw [eval_isNone_none (by rw [eval_selfProp]; exact hp)] at he
+      rw [eval_isNone_none (by rw [eval_selfProp env hs]; exact hp)] at he
       simp at he
     | some v =>
-      rw [eval_isNone_of (by rw [eval_selfProp]; exact hp)] at he
+      rw [eval_isNone_of (by rw [eval_selfProp env hs]; exact hp)] at he
       by_cases hv : v = .none
       · left; rw [hv]
       · right
@@ -365,7 +369,7 @@ theorem tryConditional_sound (env : Env) {e cons : Expr} {g : Ident}
         · cases he
 
 
-theorem recogLen_sound (env : Env) {inv : Expr} {p : Ident} {b : Bound}
+theorem recogLen_sound (env : Env) (hs : env.selfVal = .inst) {inv : Expr} {p : Ident} {b : Bound}
     (hr : recogLen inv = .ok (some (p, b))) (he : eval env inv = some (.bool true)) :
     env.props p = some .none ∨ ∃ t, env.props p = some (.data t) ∧ b.holds t.length := by
   unfold recogLen at hr
@@ -380,20 +384,21 @@ theorem recogLen_sound (env : Env) {inv : Expr} {p : Ident} {b : Bound}
         obtain ⟨h1, h2⟩ := hr
         subst h1; subst h2
         have hqg : q = g := by simpa using hpg
-        rcases tryConditional_sound env hc he with h | h
+        rcases tryConditional_sound env hs hc he with h | h
         · left; rw [hqg]; exact h
-        · right; exact matchLenOnProp_sound env hm h
+        · right; exact matchLenOnProp_sound env hs hm h
     · rename_i hneg
       exact absurd hr (hneg p b)
-  · right; exact matchLenOnProp_sound env hr he
+  · right; exact matchLenOnProp_sound env hs hr he
 
 theorem recogPat_sound (env : Env) {pats : List (Ident × Nat)} (hok : env.OK pats) {inv : Expr} {p : Ident} {k : Nat}
     (hr : (p, k) ∈ recogPat pats inv) (he : eval env inv = some (.bool true)) :
     env.props p = some .none ∨ ∃ t, env.props p = some (.data t) ∧ env.matchesPat k t = true := by
+  have hs := hok.selfInst
   unfold recogPat at hr
   split at hr
   · rename_i g cons hc
-    rcases tryConditional_sound env hc he with h | h
+    rcases tryConditional_sound env hs hc he with h | h
     · -- the guard is `None`; whatever was recognised is on the guarded property
       split at hr
       · rename_i vs
@@ -446,7 +451,7 @@ theorem recogPat_sound (env : Env) {pats : List (Ident × Nat)} (hok : env.OK pa
       exact matchPat_sound env hok hr he
     · cases hr
 
-theorem recogSet_sound (env : Env) {inv : Expr} {p x : Ident}
+theorem recogSet_sound (env : Env) (hs : env.selfVal = .inst) {inv : Expr} {p x : Ident}
     (hr : (p, x) ∈ recogSet inv) (he : eval env inv = some (.bool true)) :
     env.props p = some .none ∨ ∃ t, env.props p = some (.data t) ∧ ∃ ms, env.sets x = some ms ∧ t ∈ ms := by
   unfold recogSet at hr
@@ -454,24 +459,24 @@ theorem recogSet_sound (env : Env) {inv : Expr} {p x : Ident}
   · rename_i g cons hc
     simp only [List.mem_filter, decide_eq_true_eq] at hr
     obtain ⟨hmem, hpg⟩ := hr
-    rcases tryConditional_sound env hc he with h | h
+    rcases tryConditional_sound env hs hc he with h | h
     · left; rw [hpg]; exact h
     · right
       split at hmem
       · rename_i vs
         obtain ⟨v, hvm, hv⟩ := List.mem_filterMap.mp hmem
         rw [eval_and] at h
-        exact matchIn_sound env hv (evalAnd_true h v hvm)
+        exact matchIn_sound env hs hv (evalAnd_true h v hvm)
       · rw [Option.mem_toList] at hmem
-        exact matchIn_sound env hmem h
+        exact matchIn_sound env hs hmem h
   · right
     split at hr
     · rename_i vs
       obtain ⟨v, hvm, hv⟩ := List.mem_filterMap.mp hr
       rw [eval_and] at he
-      exact matchIn_sound env hv (evalAnd_true he v hvm)
+      exact matchIn_sound env hs hv (evalAnd_true he v hvm)
     · rw [Option.mem_toList] at hr
-      exact matchIn_sound env hr he
+      exact matchIn_sound env hs hr he
 
 /-- "Never misread": whatever the recognisers infer from an invariant is implied by the invariant. -/
 theorem recognise_sound (env : Env) (pats : List (Ident × Nat)) (hok : env.OK pats) (inv : Expr) (p : Ident) (k : K)
@@ -485,7 +490,7 @@ theorem recognise_sound (env : Env) (pats : List (Ident × Nat)) (hok : env.OK p
         simp only [List.mem_singleton, Prod.mk.injEq] at hk
         obtain ⟨h1, h2⟩ := hk
         subst h1; subst h2
-        exact recogLen_sound env hr he
+        exact recogLen_sound env hok.selfInst hr he
       · cases hk
     · obtain ⟨⟨q, k'⟩, hm, heq⟩ := List.mem_map.mp hk
       simp only [Prod.mk.injEq] at heq
@@ -496,6 +501,94 @@ theorem recognise_sound (env : Env) (pats : List (Ident × Nat)) (hok : env.OK p
     simp only [Prod.mk.injEq] at heq
     obtain ⟨h1, h2⟩ := heq
     subst h1; subst h2
-    exact recogSet_sound env hm he
+    exact recogSet_sound env hok.selfInst hm he
+
+
+/-! ### invariants of constrained primitives (`self` is the value itself) -/
+
+theorem eval_len_self (env : Env) (t : List Nat) (hs : env.selfVal = .data t) :
+    eval env (.call idLen [.name idSelf]) = some (.int t.length) := by
+  simp [eval, evalArgs, hs]
+
+theorem recogLenSelf_sound (env : Env) (t : List Nat) (hs : env.selfVal = .data t) {inv : Expr} {b : Bound}
+    (hr : recogLenSelf inv = .ok (some b)) (he : eval env inv = some (.bool true)) : b.holds t.length := by
+  unfold recogLenSelf at hr
+  split at hr
+  · rename_i x b' hm
+    split at hr
+    · rename_i hx
+      simp only [Res.ok.injEq, Option.some.injEq] at hr
+      subst hr
+      subst hx
+      obtain ⟨op, c, ⟨he', ho⟩ | ⟨he', ho⟩⟩ := matchLenCmp_inv hm
+      · subst he'
+        obtain ⟨a, b2, hl, hr, hc⟩ := eval_cmp_true he
+        rw [eval_const] at hr
+        cases hr
+        rw [eval_len_self env t hs] at hl
+        cases hl
+        exact (ofComparison_sound ho t.length).mpr (by simpa using hc)
+      · subst he'
+        obtain ⟨a, b2, hl, hr, hc⟩ := eval_cmp_true he
+        rw [eval_const] at hl
+        cases hl
+        rw [eval_len_self env t hs] at hr
+        cases hr
+        exact (ofComparison_sound ho t.length).mpr (by simpa using hc)
+    · cases hr
+  · cases hr
+  · cases hr
+  · cases hr
+
+theorem matchPatSelf_inv {pats : List (Ident × Nat)} {e : Expr} {k : Nat} (h : matchPatSelf pats e = some k) :
+    ∃ f, e = .call f [.name idSelf] ∧ lookupId f pats = some k := by
+  cases e with
+  | call f args =>
+    match args, h with
+    | [.name x], h =>
+      simp only [matchPatSelf] at h
+      split at h
+      · rename_i hx; subst hx; exact ⟨f, rfl, h⟩
+      · cases h
+  | _ => simp [matchPatSelf] at h
+
+theorem matchPatSelf_sound (env : Env) (pats : List (Ident × Nat)) (t : List Nat) (hs : env.selfVal = .data t)
+    (hfn : ∀ f k t, lookupId f pats = some k → env.fn f [.data t] = some (.bool (env.matchesPat k t)))
+    {e : Expr} {k : Nat} (h : matchPatSelf pats e = some k) (he : eval env e = some (.bool true)) :
+    env.matchesPat k t = true := by
+  obtain ⟨f, hf, hk⟩ := matchPatSelf_inv h
+  subst hf
+  rw [eval] at he
+  simp only [evalArgs, eval_self, hs] at he
+  split at he
+  · simp at he
+  · rw [hfn f k t hk] at he
+    simpa using he
+
+/-- What is inferred from an invariant of a constrained primitive is implied by the invariant. -/
+theorem recogniseSelf_sound (env : Env) (pats : List (Ident × Nat)) (t : List Nat) (hs : env.selfVal = .data t)
+    (hfn : ∀ f k t, lookupId f pats = some k → env.fn f [.data t] = some (.bool (env.matchesPat k t)))
+    (inv : Expr) (k : K) (hk : k ∈ recogniseSelf pats inv) (he : eval env inv = some (.bool true)) :
+    k.holds env t := by
+  unfold recogniseSelf at hk
+  rcases List.mem_append.mp hk with hk | hk
+  · split at hk
+    · rename_i b hr
+      simp only [List.mem_singleton] at hk
+      subst hk
+      exact recogLenSelf_sound env t hs hr he
+    · cases hk
+  · obtain ⟨k', hm, heq⟩ := List.mem_map.mp hk
+    subst heq
+    unfold recogPatSelf at hm
+    split at hm
+    · rename_i vs
+      obtain ⟨v, hvm, hv⟩ := List.mem_filterMap.mp hm
+      rw [eval_and] at he
+      exact matchPatSelf_sound env pats t hs hfn hv (evalAnd_true he v hvm)
+    · rename_i f args
+      rw [Option.mem_toList] at hm
+      exact matchPatSelf_sound env pats t hs hfn hm he
+    · cases hm
 
 end AasVerif.Infer
